@@ -364,4 +364,38 @@ example : classify (schemeOf (ofString "/// {{{USER_<<<EVENTNAME>>>_<<<STATENAME
 example : classify (schemeOf (ofString "/// {{{USER_<<<STATENAME>>><<<EVENTNAME>>>}}}\n")) = none := by decide +kernel
 
 
+/-! ### static tags against per-element tags -/
+
+def isLowerC (c : Nat) : Bool := 97 ≤ c && c ≤ 122
+
+/-- the remaining hypothesis of `C07_file_keys_nodup`, discharged for the static tags: a key
+    without a small letter is none of the per-element keys when every guard, state and action name
+    has one (names are written in CamelCase; the shipped static tags are capitals, digits and `_`) -/
+theorem C07_static_vs_dynamic (others G S R : List Str) (P : List (Str × Str))
+    (hcaps : ∀ x ∈ others, ∀ c ∈ x, isLowerC c = false)
+    (lG : ∀ g ∈ G, ∃ c ∈ g, isLowerC c = true) (lS : ∀ s ∈ S, ∃ c ∈ s, isLowerC c = true)
+    (lP : ∀ p ∈ P, ∃ c ∈ p.1, isLowerC c = true) :
+    ∀ x ∈ others, x ∉ dynNames G S R P := by
+  intro x hx hd
+  have hno := hcaps x hx
+  unfold dynNames at hd
+  rcases List.mem_append.mp hd with h | h
+  · obtain ⟨c, hc, hl⟩ := lG x h
+    rw [hno c hc] at hl; cases hl
+  · obtain ⟨p, hp, rfl⟩ := List.mem_map.mp h
+    have : ∃ c ∈ p.1, isLowerC c = true := by
+      rcases List.mem_append.mp hp with h1 | h1
+      · exact lS _ (mem_derived_left h1).1
+      · exact lP p h1
+    obtain ⟨c, hc, hl⟩ := this
+    have hmem : c ∈ sfx p := by simp [sfx, hc]
+    rw [hno c hmem] at hl; cases hl
+
+/-- the static USER tags of the shipped state-machine templates carry no small letter -/
+theorem C07_shipped_static_tags_caps :
+    smTemplateSets.all (fun set => set.all (fun f => (f.2.filter isUserTag).all (fun l =>
+      contains LT3 (schemeOf l) || (schemeOf l).all (fun c => !isLowerC c)))) = true := by
+  decide +kernel
+
+
 end KojenVerif.C07
